@@ -106,7 +106,8 @@ fn observe(ctx: &mut Ctx, name: &str, content: &[u8], mode: MappingMode, what: &
 }
 
 fn sizes(ctx: &mut Ctx) {
-    let mut list: Vec<usize> = vec![0, 8, 16, 24, 4088, 4096, 4104, 8192, 12288, 65536, 65544, (1 << 20) + 8];
+    // (sizes around the huge-page size matter to implementations that round or advise large mappings)
+    let mut list: Vec<usize> = vec![0, 8, 16, 24, 4088, 4096, 4104, 8192, 12288, 65536, 65544, (1 << 20) + 8, (1 << 21) - 8, 1 << 21, (1 << 21) + 8, (1 << 21) + 3 * 4096, 5 << 20];
     if !ctx.quick() { list.extend_from_slice(&[32768, 4096 * 7, (1 << 22), (1 << 24) + 4096]); }
     let mut index = 0u64;
     for &size in list.iter() {
@@ -158,6 +159,28 @@ fn sizes(ctx: &mut Ctx) {
                 }
                 let _ = std::fs::set_permissions(&name, std::fs::Permissions::from_mode(0o644));
                 if mapped_bytes(&name).0 != 0 { ctx.violation("map.drop.still_mapped", format!("a mapping of the mode-0444 file remains after drop on {}", what())); }
+            }
+            // The same file reached through symbolic links whose own length (the link text) differs from the file's in
+            // every way: the map is about the file, whatever the path looks like.
+            if size > 0 && size <= 65544 {
+                for extra in [0usize, 3, 40] {
+                    let link = format!("{}-l{}", name, extra);
+                    let _ = std::fs::remove_file(&link);
+                    // The link text: the same file spelled with `extra` redundant "./" components.
+                    let (dir, base) = name.rsplit_once('/').unwrap_or((".", name.as_str()));
+                    let target = format!("{}/{}{}", dir, "./".repeat(extra), base);
+                    if std::os::unix::fs::symlink(&target, &link).is_ok() {
+                        let what_l = || format!("a {}-byte file mapped {:?} through a symbolic link whose text has {} bytes", size, mode, target.len());
+                        // `observe` looks the mapping up in /proc/self/maps under the resolved name.
+                        let before = mapped_bytes(&name).0;
+                        let r = guard(|| MemoryMap::new(&link, mode).map(|m| { let s: &[u64] = m.as_ref(); let same = s.len() * 8 == size && s.iter().enumerate().all(|(i, w)| { let mut x = [0u8; 8]; x.copy_from_slice(&content[i * 8..i * 8 + 8]); *w == u64::from_le_bytes(x) }); (m.len(), same) }).map_err(|e| e.to_string()));
+                        ctx.checks += 1;
+                        if mode == MappingMode::ReadOnly && r != Ok(Ok((size / 8, true))) { ctx.violation("map.symlink", format!("(len, content equal) = {:?} on {}", r, what_l())); }
+                        if mode == MappingMode::Mutable { if let Ok(Ok((l, _))) = &r { if *l != size / 8 { ctx.violation("map.symlink", format!("len {} on {}", l, what_l())); } } }
+                        if before == 0 && mapped_bytes(&name).0 != 0 { ctx.violation("map.drop.still_mapped", format!("a mapping remains after drop on {}", what_l())); }
+                        let _ = std::fs::remove_file(&link);
+                    }
+                }
             }
             let _ = std::fs::remove_file(&name);
             ctx.case(hash64(&[1, size as u64, mode as u64]), true);
